@@ -591,7 +591,8 @@ class Watcher(object):
         # when an on_demand process dies, do not restart it until
         # the next event
         if self.pending_socket_event:
-            self._status = "stopped"
+            if not self.processes:
+                self._status = "stopped"
             return
         for i in self._found_wids:
             self.spawn_process(i)
